@@ -468,6 +468,103 @@ func c24(r *Run) {
 			r.missing("C24.R6", "executeTxs:fetch-sites", "Fetch/Get/NewView sites not found")
 		}
 	}
+
+	// R7: a transaction registered with outstanding reads always gets its blocker count and waiter; errors stay settable until the workers are done
+	r.rule("C24.R7", "K7", "Fetch: every wait registration counts a blocker; a tx is registered without waiter only when it has no blockers; Wait seals the error only after the workers exited", 4)
+	ff := r.fn(w, "C24.R7", "(*"+pkgFetcher+".Fetcher).Fetch")
+	if ff != nil {
+		bl := findEffects(ff, "store alloc(complit).blockers = *")
+		wt := findEffects(ff, "store alloc(complit).waiter = makechan(*")
+		regs := findEffects(ff, "mapupdate p0.txs[p2] = alloc(complit)")
+		if len(bl) == 1 && len(wt) == 1 && len(regs) >= 1 {
+			cnt := strip(bl[0].Ins.(*ssa.Store).Val)
+			// the edges on which the count is known to be zero
+			blocked := map[edgeKey]bool{}
+			for _, b := range ff.Blocks {
+				if ifi, ok := b.Instrs[len(b.Instrs)-1].(*ssa.If); ok {
+					if bo, ok := ifi.Cond.(*ssa.BinOp); ok && (sameValue(bo.X, cnt) || sameValue(bo.Y, cnt)) {
+						p := predString(ifi.Cond, true)
+						if strings.HasPrefix(p, "0 < ") {
+							blocked[edgeKey{b.Index, 1}] = true
+						}
+					}
+				}
+			}
+			okk := len(blocked) > 0
+			for _, rg := range regs {
+				avoid := func(i ssa.Instruction) bool { return i == bl[0].Ins }
+				if found, _ := pathExists(point{ff.Blocks[0], 0}, isInstr(rg.Ins), avoid, blocked); found {
+					okk = false
+				}
+				avoidW := func(i ssa.Instruction) bool { return i == wt[0].Ins }
+				if found, _ := pathExists(point{ff.Blocks[0], 0}, isInstr(rg.Ins), avoidW, blocked); found {
+					okk = false
+				}
+			}
+			r.check(okk, "C24.R7", "Fetch:registered-with-count-and-waiter-unless-zero", r.at(w, regs[0].Ins), "", "a transaction can be registered without its blocker count and waiter although reads it depends on are outstanding: Get would return before the values arrived and report the keys absent")
+			// every registration as waiter of a key (new key or append to blocked) increments the count before the next key
+			var waits []*effect
+			waits = append(waits, findEffects(ff, "mapupdate p0.keys[*] = alloc(complit)")...)
+			waits = append(waits, findEffects(ff, "store p0.keys[*]#0.blocked = builtin.append(*")...)
+			okI := len(waits) == 2
+			if phi, ok := cnt.(*ssa.Phi); ok && okI {
+				for _, wv := range waits {
+					inc := false
+					for _, ins := range wv.Ins.Block().Instrs {
+						if bo, ok := ins.(*ssa.BinOp); ok && bo.Op == token.ADD && (term(bo.Y) == "1" || term(bo.X) == "1") {
+							for _, e := range phi.Edges {
+								if e == bo {
+									inc = true
+								}
+							}
+							// the count may flow through a second phi at the loop header
+							for _, ref := range *bo.Referrers() {
+								if p2, ok := ref.(*ssa.Phi); ok && (p2 == phi || phiFeeds(p2, phi)) {
+									inc = true
+								}
+							}
+						}
+					}
+					if !inc {
+						okI = false
+					}
+				}
+			} else {
+				okI = false
+			}
+			r.check(okI, "C24.R7", "Fetch:every-wait-registration-counts", w.rel(ff.Pos()), "", "a key the transaction waits for (new fetch or already in flight) is not counted as a blocker")
+		} else {
+			r.missing("C24.R7", "Fetch:shape", "blockers / waiter stores or tx registration not found")
+		}
+	}
+	fw := r.fn(w, "C24.R7", "(*"+pkgFetcher+".Fetcher).Wait")
+	if fw != nil {
+		wg := findEffects(fw, "call (*sync.WaitGroup).Wait(p0.wg)")
+		// sealing Do anywhere in Wait or its closures
+		okk := len(wg) == 1
+		n := 0
+		for _, f := range withNested(fw) {
+			for _, e := range findEffects(f, "call (*sync.Once).Do(*.setErr, *") {
+				n++
+				if f != fw || len(wg) != 1 || !dominatesI(wg[0].Ins, e.Ins) {
+					okk = false
+				}
+			}
+		}
+		r.check(okk && n == 1, "C24.R7", "Wait:error-sealed-only-after-workers-exit", w.rel(fw.Pos()), "", "Wait makes the error unsettable before the workers have exited: a read error arriving later is lost, Wait reports success and blocked Get calls never return")
+		outs := returnOutcomes(fw)
+		r.check(len(outs) == 1 && len(outs[0].Vals) == 1 && term(outs[0].Vals[0]) == "p0.err", "C24.R7", "Wait:returns-recorded-error", w.rel(fw.Pos()), "", "Wait does not return the recorded error")
+	}
+}
+
+// phiFeeds reports whether phi a is (transitively, one level) an edge of phi b.
+func phiFeeds(a, b *ssa.Phi) bool {
+	for _, e := range b.Edges {
+		if e == ssa.Value(a) {
+			return true
+		}
+	}
+	return false
 }
 
 // ----------------------------------------------------------------------------- C26
